@@ -8,25 +8,35 @@ From Coq Require Import List Arith Bool.
 From GV Require Import Model.Loops Proofs.LoopsP.
 Import ListNotations.
 
-(* Parser.ParseContext with a context that never fires is Parser.Parse (default mode): same trees, same error *)
+(* Parser.ParseContext with a context that never fires is Parser.Parse, in default and in strict mode: same trees,
+   same error *)
 Theorem C07_parse_context_agrees :
-  forall tree ntok is_eof is_semi ps fuel pos acc,
-    parse_ctx tree ntok is_eof is_semi ps fuel pos acc = parse tree ntok is_eof is_semi ps false fuel pos acc.
+  forall tree ntok is_eof is_semi ps strict fuel pos acc,
+    parse_ctx tree ntok is_eof is_semi ps strict fuel pos acc = parse tree ntok is_eof is_semi ps strict fuel pos acc.
 Proof. exact parse_ctx_agrees. Qed.
 
 (* recovery-mode parsing accepts exactly when strict parsing accepts, and then returns the same trees *)
 Theorem C07_recovery_accepts_iff :
   forall tree ntok is_eof is_semi starts_stmt ps fuel ts es,
-    recover tree ntok is_eof is_semi starts_stmt ps fuel 0 [] [] = ROk ts es ->
+    recover tree ntok is_eof is_semi starts_stmt ps fuel 0 [] [] None = ROk ts es ->
     parse tree ntok is_eof is_semi ps false fuel 0 [] <> PFuel ->
     (forall c, parse tree ntok is_eof is_semi ps false fuel 0 [] = PErr c -> c <> E_EMPTY) ->
     (es <> [] <-> exists c, parse tree ntok is_eof is_semi ps false fuel 0 [] = PErr c).
 Proof. exact recovery_iff_strict. Qed.
 
+(* when both fail, the first error recovery reports carries the code strict parsing reports *)
+Theorem C07_recovery_same_code :
+  forall tree ntok is_eof is_semi starts_stmt ps fuel c ts es,
+    parse tree ntok is_eof is_semi ps false fuel 0 [] = PErr c -> c <> E_EMPTY ->
+    recover tree ntok is_eof is_semi starts_stmt ps fuel 0 [] [] None = ROk ts es ->
+    exists p more, es = (p, c) :: more.
+Proof. intros tree ntok is_eof is_semi starts_stmt ps fuel c ts es Hp Hc Hr.
+       exact (fail_then_first_err tree ntok is_eof is_semi starts_stmt ps fuel 0 [] c [] None ts es Hp (or_intror Hc) Hr). Qed.
+
 Theorem C07_recovery_same_trees :
   forall tree ntok is_eof is_semi starts_stmt ps fuel ts,
     parse tree ntok is_eof is_semi ps false fuel 0 [] = POk ts ->
-    recover tree ntok is_eof is_semi starts_stmt ps fuel 0 [] [] = ROk ts [].
+    recover tree ntok is_eof is_semi starts_stmt ps fuel 0 [] [] None = ROk ts [].
 Proof. exact recovery_trees_when_ok. Qed.
 
 (* strict mode never changes a tree or an error other than by raising the strict-mode error *)
@@ -57,6 +67,7 @@ Proof. exact multi_all_ok. Qed.
 
 Print Assumptions C07_parse_context_agrees.
 Print Assumptions C07_recovery_accepts_iff.
+Print Assumptions C07_recovery_same_code.
 Print Assumptions C07_recovery_same_trees.
 Print Assumptions C07_strict_refines.
 Print Assumptions C07_batch_ok.
